@@ -2489,6 +2489,12 @@ func (vm *Thread) createCurrentCallFrame(stopVM bool) {
 	vm.addCallFrame(
 		vm.makeCurrentCallFrame(stopVM),
 	)
+
+	// every kind of call leaves some headroom for the operands of the callee,
+	// not only calls of bytecode methods
+	if float64(vm.spOffset()) > 0.7*float64(len(vm.stack)) {
+		vm.growValueStack()
+	}
 }
 
 // preserve the current state of the vm in a call frame
